@@ -175,6 +175,7 @@ def api_unit(u, res):
     return res
 
 
+@symnp.outside_session
 def replay(u, shift, sub):
     """numerical re-evaluation on the unmodified classes with ordinary arrays"""
     from phonopy.structure.grid_points import GridPoints
